@@ -33,6 +33,9 @@ enum Dep {
     Rect,
     Circle,
     Ellipse,
+    /// svgdx's invisible shapes: observed through two probe elements placed at their corners
+    Box,
+    Point,
 }
 
 /// size attributes of the dependent element and its (w, h)
@@ -44,6 +47,9 @@ fn dep_size(d: Dep, which: usize) -> (&'static str, f64, f64) {
         (Dep::Circle, _) => (r#"r="1.5""#, 3., 3.),
         (Dep::Ellipse, 0) => (r#"rxy="2 1""#, 4., 2.),
         (Dep::Ellipse, _) => (r#"rx="1.5" ry="1.5""#, 3., 3.),
+        (Dep::Box, 0) => (r#"wh="4 2""#, 4., 2.),
+        (Dep::Box, _) => (r#"width="3" height="3""#, 3., 3.),
+        (Dep::Point, _) => ("", 0., 0.),
     }
 }
 
@@ -52,6 +58,8 @@ fn dep_name(d: Dep) -> &'static str {
         Dep::Rect => "rect",
         Dep::Circle => "circle",
         Dep::Ellipse => "ellipse",
+        Dep::Box => "box",
+        Dep::Point => "point",
     }
 }
 
@@ -243,13 +251,39 @@ fn observe(out: &[u8], id: &str) -> Result<BBox, String> {
     Err(format!("element #{id} not in output"))
 }
 
-fn check_single(ri: usize, by_prev: bool, dep: Dep, size: usize, form: &Form) -> Option<CaseResult> {
+/// How the dependent element is written: 0 empty element, 1 explicit end tag, 2 with a <title> child,
+/// 3 with a comment as content, 4 white space before the reference in the attribute value
+const SPELLINGS: usize = 5;
+
+fn respell(src: &str, spelling: usize) -> Option<String> {
+    let open = src.strip_suffix("/>")?;
+    let name = src[1..].split(' ').next()?;
+    Some(match spelling {
+        0 => src.to_string(),
+        1 => format!("{open}></{name}>"),
+        2 => format!("{open}><title>tip</title></{name}>"),
+        3 => format!("{open}><!-- note --></{name}>"),
+        _ => {
+            let at = src.find("=\"#").or_else(|| src.find("=\"^"))?;
+            format!("{}=\"\n   {}", &src[..at], &src[at + 2..])
+        }
+    })
+}
+
+fn check_single(ri: usize, by_prev: bool, dep: Dep, size: usize, form: &Form, spelling: usize) -> Option<CaseResult> {
     let r = &REFS[ri];
     let rb = BBox::new(r.bbox.0, r.bbox.1, r.bbox.2, r.bbox.3);
     let rref = if by_prev { "^" } else { "#r" };
     let (src, exp) = build(form, dep, size, &rb, rref, "e")?;
+    let src = respell(&src, spelling)?;
+    if matches!(dep, Dep::Box | Dep::Point) {
+        // invisible: two probes at its corners show where it is
+        let doc = format!("{}{}<rect id=\"p1\" xy=\"#e@tl\" wh=\"1\"/><rect id=\"p2\" xy=\"#e@br\" wh=\"1\"/>", r.src, src);
+        let probes = [("p1", BBox::xywh(exp.x1, exp.y1, 1., 1.)), ("p2", BBox::xywh(exp.x2, exp.y2, 1., 1.))];
+        return Some(verify(&doc, &probes, &format!("{}/{}/{}{}", r.name, dep_name(dep), form_class(form), if spelling == 0 { String::new() } else { format!("/spelling{spelling}") }), 2));
+    }
     let doc = format!("{}{}", r.src, src);
-    Some(verify(&doc, &[("e", exp)], &format!("{}/{}/{}", r.name, dep_name(dep), form_class(form)), 1))
+    Some(verify(&doc, &[("e", exp)], &format!("{}/{}/{}{}", r.name, dep_name(dep), form_class(form), if spelling == 0 { String::new() } else { format!("/spelling{spelling}") }), 1))
 }
 
 fn form_class(f: &Form) -> String {
@@ -326,16 +360,23 @@ pub fn run(tier: Tier) -> i32 {
     let tier = Tier::Thorough;
     let fs = forms(tier);
     let deps = [Dep::Rect, Dep::Circle, Dep::Ellipse];
-    let mut singles: Vec<(usize, bool, Dep, usize, usize)> = Vec::new();
+    let single_deps = [Dep::Rect, Dep::Circle, Dep::Ellipse, Dep::Box, Dep::Point];
+    let mut singles: Vec<(usize, bool, Dep, usize, usize, usize)> = Vec::new();
     for ri in 0..REFS.len() {
         for by_prev in [false, true] {
-            for (di, d) in deps.iter().enumerate() {
+            for (di, d) in single_deps.iter().enumerate() {
                 for size in 0..2 {
                     for fi in 0..fs.len() {
                         if tier == Tier::Quick && (ri + di + size + fi) % 3 != 0 && !matches!(fs[fi], Form::Dir { .. } | Form::Size { .. } | Form::Bare { .. }) {
                             continue;
                         }
-                        singles.push((ri, by_prev, *d, size, fi));
+                        singles.push((ri, by_prev, *d, size, fi, 0));
+                        // other spellings of the dependent element: on two references, one size
+                        if (ri == 0 || ri == 3) && size == 0 {
+                            for sp in 1..SPELLINGS {
+                                singles.push((ri, by_prev, *d, size, fi, sp));
+                            }
+                        }
                     }
                 }
             }
@@ -347,8 +388,8 @@ pub fn run(tier: Tier) -> i32 {
         rep.set("rule", json!(format!("{r} THOROUGH TIER ADDITIONALLY: every ordered pair of ALL single forms as a two-link chain on two reference elements (the second link by #id or ^ alternately) and every triple of the 14 covering forms on three further references.")));
     }
     let st = run_space(singles.len(), |i| {
-        let (ri, bp, d, size, fi) = singles[i];
-        check_single(ri, bp, d, size, &fs[fi]).unwrap_or(CaseResult { case_hash: hash64(&("na", i)), nontrivial: false, outcome_hash: 0, executions: 0, violation: None })
+        let (ri, bp, d, size, fi, sp) = singles[i];
+        check_single(ri, bp, d, size, &fs[fi], sp).unwrap_or(CaseResult { case_hash: hash64(&("na", i)), nontrivial: false, outcome_hash: 0, executions: 0, violation: None })
     });
     let s = &singles[singles.len() / 2];
     if let Some((src, exp)) = build(&fs[s.4], s.2, s.3, &BBox::new(REFS[s.0].bbox.0, REFS[s.0].bbox.1, REFS[s.0].bbox.2, REFS[s.0].bbox.3), "#r", "e") {
